@@ -212,6 +212,9 @@ RULES = [
     ("C04-R1", "stored unix modes of members: permission and type predicates [shared with C04]", lambda ctx: __import__("c04").r1(ctx)),
     ("C04-R2", "mode string of members [shared with C04]", lambda ctx: __import__("c04").r2(ctx)),
     ("C01-R7", "the archive branch never leaves the entry loop: ordinary rows are unaffected [shared with C01]", lambda ctx: __import__("c01").r7(ctx)),
+    ("C19-R4", "the archive test and member conversion cannot panic (P restricted to is_zip_archive / has_extension / to_file_info)",
+     lambda ctx: __import__("c10").r1(ctx, only=lambda s: any(s.fn == f or s.fn.startswith(f + "::") for f in
+                 ("util::has_extension", "searcher::Searcher::is_zip_archive", "fileinfo::to_file_info")), rule_prefix="archive-")),
 ]
 
 EXPLANATION = (
